@@ -123,27 +123,41 @@ GROUP_MEMBERS = [["10.0.0.0/30"], ["10.0.0.0/30", "192.168.1.0/24"], ["10.0.0.0/
 
 
 def check_group_pair(arg):
-    """grouped addresses: a positive answer implies true containment (same or different group names, any members)"""
+    """grouped addresses: a positive answer implies true containment (same or different group names, any members); and
+    after in-place edits of the member lists the answers are those of freshly built objects"""
     import cisco_acl
     from cisco_acl import functions as f
     platform, na, ia, nb, ib = arg
     kw = "object-group" if platform == "ios" else "addrgroup"
 
     def mk(name, members):
-        a = cisco_acl.Address(f"{kw} {name}", platform=platform)
-        a.items = [cisco_acl.Address(m if platform == "nxos" else cisco_acl.Address(m, platform="nxos").wildcard, platform=platform) for m in members]
-        return a
-    a, b = mk(na, GROUP_MEMBERS[ia]), mk(nb, GROUP_MEMBERS[ib])
-    ca = [c for m in GROUP_MEMBERS[ia] for c in ref_cubes(m, "nxos")]
-    cb = [c for m in GROUP_MEMBERS[ib] for c in ref_cubes(m, "nxos")]
-    contained = sets.union_subset(ca, cb) is None
+        a_ = cisco_acl.Address(f"{kw} {name}", platform=platform)
+        a_.items = [cisco_acl.Address(m if platform == "nxos" else cisco_acl.Address(m, platform="nxos").wildcard, platform=platform) for m in members]
+        return a_
+
+    def cubes(members):
+        return [c for m in members for c in ref_cubes(m, "nxos")]
+    cmd = ("import sys; sys.path.insert(0, 'props'); import C13\n"
+           f"fails, _ = C13.check_group_pair({arg!r})\nprint([f['what'] for f in fails]); sys.exit(1 if fails else 0)\n")
     fails = []
+    a, b = mk(na, GROUP_MEMBERS[ia]), mk(nb, GROUP_MEMBERS[ib])
+    contained = sets.union_subset(cubes(GROUP_MEMBERS[ia]), cubes(GROUP_MEMBERS[ib])) is None
     for name, got in (("Address.subnet_of", a.subnet_of(b)), ("functions.subnet_of", f.subnet_of(top=b, bottom=a))):
         if got and not contained:
             fails.append(dict(key=f"bounded/{name}:group:wrong-yes", what=f"group {na}{GROUP_MEMBERS[ia]} reported as subnet of group {nb}{GROUP_MEMBERS[ib]} ({platform}) but is not contained",
-                              inputs=dict(platform=platform, bottom=[na, GROUP_MEMBERS[ia]], top=[nb, GROUP_MEMBERS[ib]]),
-                              cmd=("import sys; sys.path.insert(0, 'props'); import C13\n"
-                                   f"fails, _ = C13.check_group_pair({arg!r})\nprint([f['what'] for f in fails]); sys.exit(1 if fails else 0)\n")))
+                              inputs=dict(platform=platform, bottom=[na, GROUP_MEMBERS[ia]], top=[nb, GROUP_MEMBERS[ib]]), cmd=cmd))
+    for ja, jb in ((ib, ia), (ia, (ib + 1) % 5), ((ia + 2) % 5, ib)):
+        a.items.clear()
+        a.items.extend(mk(na, GROUP_MEMBERS[ja]).items)
+        b.items.clear()
+        b.items.extend(mk(nb, GROUP_MEMBERS[jb]).items)
+        got2 = a.subnet_of(b)
+        fresh = mk(na, GROUP_MEMBERS[ja]).subnet_of(mk(nb, GROUP_MEMBERS[jb]))
+        if got2 != fresh:
+            fails.append(dict(key="bounded/Address.subnet_of:group:stale-after-edit",
+                              what=f"after editing the member lists in place ({GROUP_MEMBERS[ja]} in {GROUP_MEMBERS[jb]}) subnet_of says {got2}, freshly built objects say {fresh}",
+                              inputs=dict(platform=platform, first=[GROUP_MEMBERS[ia], GROUP_MEMBERS[ib]], then=[GROUP_MEMBERS[ja], GROUP_MEMBERS[jb]]), cmd=cmd))
+            break
     return fails, 1
 
 
